@@ -3,8 +3,8 @@ CONSTANTS
   Threads = {1, 2}
   Names = {"b", "n"}
   Cons = {"n"}
-  Local = FALSE
-  Variant = "locked"
+  Local = TRUE
+  Variant = "deferred"
 INVARIANT P_AsAlone
 INVARIANT P_LockFree
 PROPERTY Termination
